@@ -126,7 +126,10 @@ def run_case(case_id, pre_abs, msg_abs, seed, keep_xml=False):
     msg_xml = g.msg(msg_abs, loose_mid=any(c["tag"] == "mosromgrmeta" for c in pre_abs["root"]))
     table = {}
     # bind token names to the digests of what was actually rendered
-    ro = parse_ro(ro_xml)
+    try:
+        ro = parse_ro(ro_xml)
+    except Exception:  # noqa: BLE001 - the reference parser reads this text (it was rendered from a tree)
+        return parse_event(case_id, "ro")
     completed_of(ro)            # read the flag before the merge as well: it must not be remembered
     pre_proj = project.project_ro(ro)
     if not same_reading(ro, ro_xml):
@@ -143,6 +146,8 @@ def run_case(case_id, pre_abs, msg_abs, seed, keep_xml=False):
         m = parse_msg(msg_xml)
         cls_seen = type(m).__name__
     except Exception as e:  # classification failed: the step cannot even start
+        if type(e).__name__ == "MosInvalidXML":      # ... but the text is well-formed: the reference parser has read it
+            return parse_event(case_id, "msg")
         ev.update(post=pre_abs, status=("unclassified" if isinstance(e, exc.MosRoMgrException) else "crash:" + type(e).__name__), warns=[], ser_eq=True, completed_acc=completed_of(ro))
         if keep_xml:
             ev["xml"] = {"ro": ro_xml, "msg": msg_xml}
